@@ -42,6 +42,21 @@ type tcase struct {
 	Tag   string    `json:"tag"`
 	Files []srcFile `json:"files"`
 	Runs  int       `json:"runs"`
+	// Split > 0: the history run loads Files[:Split] in the written order, calls Process, loads
+	// Files[Split:], calls Process again.  Split == 0: the history run is the reverse order with
+	// the last file held back.
+	Split int `json:"split,omitempty"`
+}
+
+// history returns the load order and the split point of the history run (split 0: none).
+func (c tcase) history() ([]int, int) {
+	if c.Split > 0 && c.Split < len(c.Files) {
+		return c.order(0), c.Split
+	}
+	if len(c.Files) >= 2 {
+		return c.order(1), len(c.Files) - 1
+	}
+	return c.order(0), 0
 }
 
 func (c tcase) key() string {
@@ -150,6 +165,46 @@ func goDump(files []srcFile, order []int, again bool) (out string) {
 	return out
 }
 
+// goHistory: one Modules, files order[:split] loaded and processed, then the rest loaded and
+// processed again.  What is observed afterwards has to be what fresh Modules with all the texts give.
+func goHistory(files []srcFile, order []int, split int) (out string) {
+	defer func() {
+		if r := recover(); r != nil {
+			out = fmt.Sprintf("crash panic: %v", r)
+		}
+	}()
+	ms := yang.NewModules()
+	for k, i := range order {
+		if k == split {
+			ms.Process() // whatever it reports: the set is incomplete at this point
+		}
+		if err := ms.Parse(files[i].Text, files[i].Name); err != nil {
+			return "loaderr"
+		}
+	}
+	return renderGo(ms, ms.Process())
+}
+
+// goToEntryFirst: ToEntry of every module and submodule before the first Process (it resolves
+// the types against an identity dictionary that is still empty), then Process.
+func goToEntryFirst(files []srcFile, order []int) (out string) {
+	defer func() {
+		if r := recover(); r != nil {
+			out = fmt.Sprintf("crash panic: %v", r)
+		}
+	}()
+	ms := yang.NewModules()
+	for _, i := range order {
+		if err := ms.Parse(files[i].Text, files[i].Name); err != nil {
+			return "loaderr"
+		}
+	}
+	for _, m := range append(distinctMods(ms.Modules), distinctMods(ms.SubModules)...) {
+		yang.ToEntry(m)
+	}
+	return renderGo(ms, ms.Process())
+}
+
 // renderGo renders what C11 observes after a Process call that returned errs.
 func renderGo(ms *yang.Modules, errs []error) string {
 	var errLines []string
@@ -186,27 +241,89 @@ func renderGo(ms *yang.Modules, errs []error) string {
 			}
 			items = append(items, m.FullName()+">"+ownerText(ms, m)+":"+id.Name+"="+strings.Join(vs, ","))
 		}
-		var e *yang.Entry
+		// identityref nodes at the top level: leaf and leaf-list; written directly, as union
+		// member, or through a typedef of the same (sub)module
+		type node struct {
+			name string
+			typ  *yang.Type
+		}
+		var nodes []node
 		for _, l := range m.Leaf {
-			if l.Type == nil || l.Type.Name != "identityref" {
+			nodes = append(nodes, node{l.Name, l.Type})
+		}
+		for _, l := range m.LeafList {
+			nodes = append(nodes, node{l.Name, l.Type})
+		}
+		var e *yang.Entry
+		for _, nd := range nodes {
+			form := identityrefForm(m, nd.typ)
+			if form == 0 {
 				continue
 			}
 			if e == nil {
 				e = yang.ToEntry(m)
 			}
 			got := "-"
-			if le := e.Dir[l.Name]; le != nil && le.Type != nil && le.Type.IdentityBase != nil {
-				got = vtx(le.Type.IdentityBase)
-				if !known[le.Type.IdentityBase] {
-					// the type must point at the identity itself, so that it sees the same list
-					got = "COPY!" + got
+			if le := e.Dir[nd.name]; le != nil && le.Type != nil {
+				yt := le.Type
+				if form == 2 {
+					yt = nil
+					for _, mt := range le.Type.Type {
+						if mt.Kind == yang.Yidentityref {
+							yt = mt
+							break
+						}
+					}
+				}
+				if yt != nil && yt.IdentityBase != nil {
+					ib := yt.IdentityBase
+					vs := make([]string, len(ib.Values))
+					for i, v := range ib.Values {
+						vs[i] = vtx(v)
+					}
+					// which identity object (by the revision of the (sub)module that declares it) and
+					// the list that is seen through it
+					got = yang.RootNode(ib).FullName() + ">" + vtx(ib) + "~" + strings.Join(vs, ",")
+					if !known[ib] {
+						// the type must point at the identity itself, so that it sees the same list
+						got = "COPY!" + got
+					}
 				}
 			}
-			items = append(items, "@"+m.Name+":"+l.Name+"="+got)
+			items = append(items, "@"+m.FullName()+":"+nd.name+"="+got)
 		}
 	}
 	sort.Strings(items)
 	return "ok" + encAll(items) + " ;" + encAll(dedupSorted(errLines))
+}
+
+// identityrefForm: 0 = the node's type is no identityref in the sense compared here, 1 = written
+// directly, 2 = union with an identityref member, 3 = a typedef of m (named without prefix) whose
+// type is identityref.  Mirrors Goyang.Model.Identity.identityrefTypeOf.
+func identityrefForm(m *yang.Module, t *yang.Type) int {
+	if t == nil {
+		return 0
+	}
+	switch t.Name {
+	case "identityref":
+		return 1
+	case "union":
+		for _, mt := range t.Type {
+			if mt.Name == "identityref" {
+				return 2
+			}
+		}
+		return 0
+	}
+	for _, td := range m.Typedef {
+		if td.Name == t.Name {
+			if td.Type != nil && td.Type.Name == "identityref" {
+				return 3
+			}
+			return 0
+		}
+	}
+	return 0
 }
 
 // identityError is the projection of Process' errors C11 speaks about: unresolved identity bases
@@ -228,9 +345,11 @@ func identityError(msg string) bool {
 }
 
 type childReq struct {
-	Files []srcFile `json:"files"`
-	Runs  int       `json:"runs"`
-	Order [][]int   `json:"order"`
+	Files     []srcFile `json:"files"`
+	Runs      int       `json:"runs"`
+	Order     [][]int   `json:"order"`
+	HistOrder []int     `json:"hist_order"`
+	Split     int       `json:"split"`
 }
 
 type childAns struct {
@@ -258,6 +377,17 @@ func childMain() {
 				var ans childAns
 				for k := 0; k < rq.Runs; k++ {
 					ans.Dumps = append(ans.Dumps, goDump(rq.Files, rq.Order[k], k == rq.Runs-1))
+				}
+				if len(ans.Dumps) > 0 && strings.HasPrefix(ans.Dumps[0], "ok") {
+					// histories on one Modules must end where fresh Modules with all the texts end
+					if rq.Split > 0 {
+						if h := goHistory(rq.Files, rq.HistOrder, rq.Split); h != ans.Dumps[0] {
+							ans.Dumps = append(ans.Dumps, "history-differs "+ans.Dumps[0]+" ### "+h)
+						}
+					}
+					if h := goToEntryFirst(rq.Files, rq.Order[0]); h != ans.Dumps[0] {
+						ans.Dumps = append(ans.Dumps, "toentry-first-differs "+ans.Dumps[0]+" ### "+h)
+					}
 				}
 				b, _ := json.Marshal(ans)
 				out.Write(b)
@@ -312,6 +442,7 @@ func (c *child) stop() {
 // ask runs one case in the child; a dead or silent child yields "crash …" dumps.
 func (c *child) ask(tc tcase) ([]string, bool) {
 	rq := childReq{Files: tc.Files, Runs: tc.Runs}
+	rq.HistOrder, rq.Split = tc.history()
 	for k := 0; k < tc.Runs; k++ {
 		rq.Order = append(rq.Order, tc.order(k))
 	}
@@ -405,6 +536,7 @@ type gLeaf struct {
 	Name    string
 	Base    string
 	HasBase bool
+	Form    int // 0 leaf, 1 leaf-list, 2 union member, 3 through a typedef of the same (sub)module
 }
 
 type gRoot struct {
@@ -450,10 +582,19 @@ func (r *gRoot) text() string {
 		sb.WriteString(" }\n")
 	}
 	for _, l := range r.Leaves {
+		ty := "type identityref;"
 		if l.HasBase {
-			fmt.Fprintf(&sb, "  leaf %s { type identityref { base %s; } }\n", l.Name, l.Base)
-		} else {
-			fmt.Fprintf(&sb, "  leaf %s { type identityref; }\n", l.Name)
+			ty = fmt.Sprintf("type identityref { base %s; }", l.Base)
+		}
+		switch l.Form {
+		case 1:
+			fmt.Fprintf(&sb, "  leaf-list %s { %s }\n", l.Name, ty)
+		case 2:
+			fmt.Fprintf(&sb, "  leaf %s { type union { type string; %s } }\n", l.Name, ty)
+		case 3:
+			fmt.Fprintf(&sb, "  typedef t-%s { %s }\n  leaf %s { type t-%s; }\n", l.Name, ty, l.Name, l.Name)
+		default:
+			fmt.Fprintf(&sb, "  leaf %s { %s }\n", l.Name, ty)
 		}
 	}
 	sb.WriteString("}\n")
@@ -1120,6 +1261,18 @@ func main() {
 					parts := strings.SplitN(strings.TrimPrefix(g[k], "second-process-differs "), " ### ", 2)
 					report(lib.Disagreement{Kind: "spec", Go: []string{decodeDump(parts[0]), decodeDump(parts[len(parts)-1])}, Model: decodeDump(model), SpecVerdict: "violates",
 						What: fmt.Sprintf("a second Process() on the same Modules (run %d) gives a different result than the first", k)})
+					differ = true
+					break
+				}
+				if strings.HasPrefix(g[k], "history-differs") || strings.HasPrefix(g[k], "toentry-first-differs") {
+					what := "ToEntry of every (sub)module before the first Process"
+					if strings.HasPrefix(g[k], "history-differs") {
+						ho, sp := tc.history()
+						what = fmt.Sprintf("history on one Modules (load files %v, Process, load files %v, Process)", ho[:sp], ho[sp:])
+					}
+					parts := strings.SplitN(g[k][strings.Index(g[k], " ")+1:], " ### ", 2)
+					report(lib.Disagreement{Kind: "spec", Go: []string{"fresh:   " + decodeDump(parts[0]), "history: " + decodeDump(parts[len(parts)-1])}, Model: decodeDump(model), SpecVerdict: "violates",
+						What: what + " ends with identity lists / identityref bases that differ from what fresh Modules with the same texts give (which is what the model and the specification say): an identityref does not point at the identity its base statement names now, or does not see its list"})
 					differ = true
 					break
 				}
